@@ -4,7 +4,7 @@ Monitors: the opaque recorder (body executions), type-aware equality of every re
 class and message of replayed exceptions, recorded result type, behaviour of forget."""
 import collections
 
-from vf import core, domain, env
+from vf import core, domain, env, models
 
 ID = "C02"
 LEVEL = "exploration"
@@ -154,11 +154,7 @@ def run_case(case):
 
 
 def check_value(out, fail, produce, mod, cid, expected, label, st, bname, REC, ResultType):
-    rt = None
-    try:
-        rt = ResultType.from_object(expected).name
-    except Exception:
-        pass
+    rt = models.spec_result_type(expected)
     desc = domain.describe(expected, 120)
     mark = REC.mark()
     first = call(produce, mod, cid)
@@ -216,10 +212,10 @@ def check_value(out, fail, produce, mod, cid, expected, label, st, bname, REC, R
         back = st.read_result(m)
         out["obs"]["result_type_checks"] += 1
         out["sets"]["result_types"].add(m.invocation_metadata.result_type.name)
-        if m.invocation_metadata.result_type != ResultType.from_object(back):
+        if m.invocation_metadata.result_type.name != models.spec_result_type(back):
             fail("recorded result type does not match the value read back",
-                 "%s: recorded %s, value read back is %s" % (label, m.invocation_metadata.result_type,
-                                                             domain.describe(back, 80)))
+                 "%s: recorded %s, value read back is %s (documented type %s)"
+                 % (label, m.invocation_metadata.result_type, domain.describe(back, 80), models.spec_result_type(back)))
     # forgetting the call makes exactly that call run again
     other = "other-" + cid
     from vf import ffuncs
